@@ -44,7 +44,7 @@ TIERS = {
     "thorough": {"shards": 16, "cases": 100000, "calls": 40, "timeout": 3000},
 }
 FLOORS = {
-    "quick": {"counts": {"payloads_lexed": 30000, "formatter_reconfigured_in_place": 150, "comment_text_with_line_breaks": 250, "routed_values_checked": 25000,
+    "quick": {"counts": {"comment_text_with_closing_symbol": 100, "payloads_lexed": 30000, "formatter_reconfigured_in_place": 150, "comment_text_with_line_breaks": 250, "routed_values_checked": 25000,
                          "number_contract_evals": 80000, "nonfinite_rejections": 1500,
                          "direct_formatter_calls": 2500}, "keys": 600},
     "thorough": {"counts": {"payloads_lexed": 1500000, "number_contract_evals": 4000000}, "keys": 1200},
@@ -137,6 +137,7 @@ def run_case(ctx, col, case):
     g.set_axis(x=0, y=0, z=0)
     s.drain()
     lab = s.labels
+    CURRENT["closing"] = s.lexer.closing
 
     def fail(kind, mech=None, **detail):
         col.violation(kind, ctx.case_ref(case), {"config": cfg, **detail}, mechanism=mech)
@@ -248,6 +249,9 @@ def run_case(ctx, col, case):
                     "emitted": [p.decode("utf-8", "replace") for p in s.rec.payloads[:10]]})
 
 
+CURRENT = {}
+
+
 def one_call(rng, g, dp, lab, emit, col):
     N = lambda **k: number(rng, dp, **k)
     if rng.random() < 0.03:
@@ -355,6 +359,13 @@ def one_call(rng, g, dp, lab, emit, col):
                            "first\r\nsecond third", "tail break\n"])
         if "\n" in text or "\r" in text:
             col.count("comment_text_with_line_breaks")
+        closing = CURRENT.get("closing")
+        if closing and rng.random() < 0.3:
+            # the closing symbol of the configured style inside the text, plain and nested in itself
+            # (deleting the inner one re-creates it): still at most one comment per block
+            k = rng.randint(0, len(closing))
+            text = rng.choice([f"a {closing} b", f"a {closing[:k]}{closing}{closing[k:]} b", f"{closing}{closing} x"])
+            col.count("comment_text_with_closing_symbol")
         if which == "comment":
             return emit("comment", lambda: g.comment(text, 7, 2.5), [], True, [])
         if which == "annotate":
